@@ -36,9 +36,9 @@ func chooser(seed uint64) func(int) int {
 
 // binary is one executable version + command line: a registry builder and its target.
 type binary struct {
-	desc   string
-	build  func(rl *runLog, cancel func()) *migration.Registry
-	target migration.SchemaVersion
+	desc     string
+	build    func(rl *runLog, cancel func()) *migration.Registry
+	target   migration.SchemaVersion
 	nEntries int
 }
 
@@ -333,4 +333,3 @@ func diffBuckets(c *sim.Ctx, got, want *memory.Database) string {
 	}
 	return "none"
 }
-
